@@ -57,4 +57,34 @@ TEXTS = {
         "level_text": "Round trip on generated result sets (with hostile bytes planted into names so details carry them) and on synthetic results with arbitrary bytes; the U+FFFD model is written independently; statuses -3..12 and arbitrary label strings are classified; every WriteJSON line of generated filtered registries is decoded with unknown fields disallowed.",
         "level_note": "JSON escapes inside labels (\\u0070ass) are outside the generated domain.",
     },
+    "C09": {
+        "technique": "metamorphic relation (replace signature bits, same length) over rapid-generated non-self-issued certificates",
+        "level_text": "Pairs of certificates with identical TBS and algorithm identifiers and different signature bits must get identical status and details from every lint; seven kinds of replacement including another certificate's signature and a freshly encoded ECDSA-Sig-Value.",
+        "level_note": "A lint that decodes the signature only for an algorithm no generated certificate uses would be missed.",
+    },
+    "C16": {
+        "technique": "enumerated thresholds/divisors + rapid-generated (N, e, Rounds) written into real certificates; math/big reference predicates",
+        "level_text": "Each of the 14 key-quality lints is compared, wherever the reference lifecycle says it executed, with its arithmetic predicate computed independently with math/big (own sieve of primes < 752, own Fermat round count from p and q); divisors 2..769 and all bit-length thresholds +-1 are enumerated; self-signed roots are built from committed keys so the root-only lint runs.",
+        "level_note": "Rounds capped at 2000; 'found within rounds' model is exact for products of two distinct odd primes only.",
+    },
+    "C17": {
+        "technique": "metamorphic relation (permute SAN entries / extension list) over rapid-generated certificates",
+        "level_text": "Certificates with generated SANs mixing good, bad and unparseable names of every GeneralName arm are compared with a permuted re-encoding; likewise the extension list of certificates without duplicate extensions. Status vectors must be equal for all lints.",
+        "level_note": "Self-signed bases are re-signed on both sides so the parser's SelfSigned flag is equal (asserted).",
+    },
+    "C18": {
+        "technique": "exhaustive boundary sweep over the generated TLD table read as data + rapid domains/instants/certificates; integer reference model",
+        "level_text": "All ~1570 table entries are checked for well-formedness and swept at delegation/removal -1 s, 0, +1 s in three spellings and zones (both tiers); random domains/instants and generated certificates compare HasValidTLD / IsInTLDMap / CertificateSubjInTLD / e_dnsname_not_valid_tld with an integer model of the statement.",
+        "level_note": "The model reads the same gtld_map.go bytes the compiler sees (via go/parser), so table and model cannot drift.",
+    },
+    "C19": {
+        "technique": "exhaustive enumeration of block edges and all super-/sub-net prefixes + rapid addresses/networks/certificates; integer CIDR model and algebraic laws",
+        "level_text": "22 special-purpose blocks written from the RFCs and 26 public anchors; edges and every prefix length around each block in both address forms are enumerated on every run; algebraic laws (form agreement, singleton network == address test, contains-reserved => intersects, super-net monotonicity) on millions of random cases; the three lints must agree with the functions.",
+        "level_note": "Only blocks named in the statement are demanded; extra reservations in the implementation are allowed.",
+    },
+    "C20": {
+        "technique": "rapid-generated mirrored content (SAN=IAN, issuer=subject, CN in SAN, dual scope) with pairwise consistency oracle over 23 rule pairs",
+        "level_text": "For 20 twin pairs and 3 error/warning companions, content is generated so both members see the same thing; whenever the reference lifecycle shows both bodies executed, statuses must agree (finding vs no finding across different severities; error => finding for companions).",
+        "level_note": "A pair member that disappears from the registry is reported in evidence (pair_member_missing), not as a violation.",
+    },
 }
